@@ -842,6 +842,15 @@ impl LineRow {
         })
     }
 
+    /// Restart the address at 0, so that the addresses of following rows are
+    /// offsets from the address of a `DW_LNE_set_address` instruction.
+    #[cfg(feature = "write")]
+    pub(crate) fn reset_address(&mut self) {
+        self.tombstone = false;
+        self.address = 0;
+        self.op_index.0 = 0;
+    }
+
     /// Perform any reset that was required after copying the previous row.
     #[inline]
     pub fn reset<R: Reader>(&mut self, header: &LineProgramHeader<R>) {
